@@ -9,20 +9,26 @@ import (
 	"bytes"
 	"context"
 	"net"
+	"time"
 
 	"github.com/iDigitalFlame/xmt/c2/cfg"
+	"github.com/iDigitalFlame/xmt/c2/cout"
 	"github.com/iDigitalFlame/xmt/com"
 	"github.com/iDigitalFlame/xmt/data"
 	"github.com/iDigitalFlame/xmt/device"
+	"github.com/iDigitalFlame/xmt/device/local"
 )
 
-// VerifC04Mux is a messager that counts what would have been delivered to handlers.
+// VerifC04Mux is a messager that processes every event at once with the real event.process
+// (which recovers from panics of handler functions exactly like the Server's event loop does)
+// and counts them.
 type VerifC04Mux struct{ N int }
 
 func (*VerifC04Mux) close()     {}
 func (*VerifC04Mux) count() int { return 0 }
 func (m *VerifC04Mux) queue(e event) {
 	m.N++
+	e.process(cout.Log{})
 }
 
 // VerifC04ReadDeviceInfo runs Session.readDeviceInfo on a bare Session; returns the number of
@@ -45,12 +51,32 @@ func VerifC04ReadPacket(c net.Conn, w cfg.Wrapper, t cfg.Transform) (*com.Packet
 	return readPacket(c, w, t)
 }
 
-// VerifC04Listener makes a Listener bound to a Server that only has its session table and keys.
+// VerifC04Listener makes a Listener the way Server.ListenContext does, without a socket and
+// without the accept goroutine; the Server is a real NewServer value whose event loop is
+// replaced by VerifC04Pump.
 func VerifC04Listener(k data.KeyPair, m *VerifC04Mux, w cfg.Wrapper, t cfg.Transform) *Listener {
-	srv := &Server{sessions: make(map[uint32]*Session), Keys: k}
+	srv := NewServer(nil)
+	srv.Keys = k
 	l := &Listener{name: "verif", ch: make(chan struct{})}
-	l.connection = connection{s: srv, m: m, w: w, t: t, ctx: context.Background()}
+	l.connection = connection{s: srv, m: m, w: w, t: t, log: srv.log}
+	l.ctx, l.cancel = context.WithCancel(srv.ctx)
 	return l
+}
+
+// VerifC04Pump does what one turn of Server.listen does for the queued session removals and events.
+func VerifC04Pump(l *Listener) {
+	for {
+		select {
+		case i := <-l.s.delSession:
+			l.s.lock.Lock()
+			delete(l.s.sessions, i)
+			l.s.lock.Unlock()
+		case e := <-l.s.events:
+			e.process(l.s.log)
+		default:
+			return
+		}
+	}
 }
 
 // VerifC04Handle is the real server-side handle() for one accepted connection.
@@ -114,4 +140,60 @@ func VerifC04SetStrings(s *Session, user, host, version string, nets []string, p
 	for _, p := range proxies {
 		s.proxies = append(s.proxies, proxyData{n: p[0], b: p[1]})
 	}
+}
+
+// ---- listener path: building valid client transmissions with the real writer ----
+
+// VerifC04Conn is an in-memory net.Conn: Read delivers the scripted bytes then io.EOF, Write collects.
+type VerifC04Conn struct {
+	In     *bytes.Reader
+	Out    bytes.Buffer
+	Closed bool
+}
+
+type verifC04Addr struct{}
+
+func (verifC04Addr) Network() string { return "verif" }
+func (verifC04Addr) String() string  { return "verif:0" }
+
+func (c *VerifC04Conn) Read(b []byte) (int, error)       { return c.In.Read(b) }
+func (c *VerifC04Conn) Write(b []byte) (int, error)      { return c.Out.Write(b) }
+func (c *VerifC04Conn) Close() error                     { c.Closed = true; return nil }
+func (c *VerifC04Conn) LocalAddr() net.Addr              { return verifC04Addr{} }
+func (c *VerifC04Conn) RemoteAddr() net.Addr             { return verifC04Addr{} }
+func (c *VerifC04Conn) SetDeadline(time.Time) error      { return nil }
+func (c *VerifC04Conn) SetReadDeadline(time.Time) error  { return nil }
+func (c *VerifC04Conn) SetWriteDeadline(time.Time) error { return nil }
+
+// VerifC04Encode is writePacket into a buffer: the bytes a client puts on the wire for n.
+func VerifC04Encode(w cfg.Wrapper, t cfg.Transform, n *com.Packet) ([]byte, error) {
+	c := &VerifC04Conn{In: bytes.NewReader(nil)}
+	err := writePacket(c, w, t, n)
+	return c.Out.Bytes(), err
+}
+
+// VerifC04Hello builds the first Packet of a client with the given ID exactly like
+// connectContextInner does (device info, optional key material), not yet on the wire.
+func VerifC04Hello(id device.ID, keys bool) *com.Packet {
+	s := &Session{ID: id, Device: local.Device.Machine}
+	s.Device.ID = id
+	n := &com.Packet{ID: SvHello, Device: id, Job: 77}
+	s.writeDeviceInfo(infoHello, n)
+	if keys {
+		s.keySessionGenerate(n)
+	}
+	return n
+}
+
+// VerifC04Decode is readPacket from a buffer (what the client does with the server's answer).
+func VerifC04Decode(w cfg.Wrapper, t cfg.Transform, b []byte) (*com.Packet, error) {
+	return readPacket(&VerifC04Conn{In: bytes.NewReader(b)}, w, t)
+}
+
+// VerifC04SessionCount is the number of registered sessions.
+func VerifC04SessionCount(l *Listener) int {
+	l.s.lock.RLock()
+	n := len(l.s.sessions)
+	l.s.lock.RUnlock()
+	return n
 }
